@@ -682,7 +682,11 @@ class SymInt:
         g = ground(s.t)
         if g is not None:
             return int(g)
-        raise Unsupported("index(SymInt)")
+        lo, hi = INDEX_RANGE
+        for k in range(lo, hi + 1):          # bounded case split: the index becomes concrete on each path
+            if (s == k).__bool__():
+                return k
+        raise Unsupported("index(SymInt) outside the case-split range")
 
     def __int__(s):
         return s.__index__()
@@ -734,6 +738,7 @@ def _concrete_int(v):
 
 
 SYMINT_POW_RANGE = (-1, 6)
+INDEX_RANGE = (-8, 8)
 
 
 def _pow(a, b):
